@@ -451,7 +451,7 @@ class BB:
     def __init__(self):
         self.port = free_port()
         env = dict(os.environ)
-        env["PYTHONPATH"] = "/repo/src"
+        env["PYTHONPATH"] = os.environ.get("VF_REPO", "/repo") + "/src"
         self.errpath = os.path.join(os.environ.get("VF_SCRATCH", "/verif/.scratch"), f"bb-{os.getpid()}-{self.port}.err")
         os.makedirs(os.path.dirname(self.errpath), exist_ok=True)
         self.err = open(self.errpath, "wb")
